@@ -876,21 +876,27 @@ class Base:
         return True
 
     def canonicalize(self, var_map=None, counter: int | None = None) -> tuple[dict[int, Base], int, Base]:
-        ctr = itertools.count(0 if counter is None else counter)
         var_map = {} if var_map is None else var_map
+        # (a map that is handed in without its counter has used up as many names as it has entries)
+        ctr = itertools.count(len(var_map) if counter is None else counter)
 
         for v in self.leaf_asts():
             if v.hash() not in var_map and v.is_leaf():
                 new_name = f"canonical_{next(ctr)}"
                 match v.op:
                     case "BVS":
-                        var_map[v.hash()] = claripy.BVS(new_name, v.length, explicit_name=True)
+                        renamed = claripy.BVS(new_name, v.length, explicit_name=True)
                     case "BoolS":
-                        var_map[v.hash()] = claripy.BoolS(new_name, explicit_name=True)
+                        renamed = claripy.BoolS(new_name, explicit_name=True)
                     case "FPS":
-                        var_map[v.hash()] = claripy.FPS(new_name, v.args[1], explicit_name=True)
+                        renamed = claripy.FPS(new_name, v.args[1], explicit_name=True)
                     case "StringS":
-                        var_map[v.hash()] = claripy.StringS(new_name, explicit_name=True)
+                        renamed = claripy.StringS(new_name, explicit_name=True)
+                    case _:
+                        continue
+                # a renaming changes the name only: what the symbol is annotated with (the interval of an SI, a
+                # region) is part of what it stands for
+                var_map[v.hash()] = renamed.annotate(*v.annotations) if v.annotations else renamed
 
         return var_map, next(ctr), claripy.replace_dict(self, var_map)
 
